@@ -235,6 +235,32 @@ fn large_cases() -> &'static Vec<Case> {
     })
 }
 
+/// odd-count median, min and max of the placeholder itself: the result must be exactly the placeholder
+fn placeholder_cases() -> &'static Vec<Case> {
+    static CELL: std::sync::OnceLock<Vec<Case>> = std::sync::OnceLock::new();
+    CELL.get_or_init(|| {
+        let mut out = Vec::new();
+        for ev in EVS {
+            for ph in ph_pool(ev) {
+                if !ph.is_finite() {
+                    continue;
+                }
+                for f in ["min", "max", "med", "median", "avg"] {
+                    for form in ["F(@)", "F(@,@,@)", "F((@))"] {
+                        if f == "avg" && form != "F(@)" {
+                            continue;
+                        }
+                        let mut c = Case::new(ev, form.replace('F', f), ph.clone());
+                        c.aux = vec![f.to_string(), String::new(), "placeholder".into()];
+                        out.push(c);
+                    }
+                }
+            }
+        }
+        out
+    })
+}
+
 fn tuple_space(n: u64, maxlen: u32) -> u64 {
     (1..=maxlen).map(|l| n.pow(l)).sum()
 }
@@ -267,7 +293,7 @@ impl Prop for C11Prop {
         "C11"
     }
     fn rule(&self) -> String {
-        "Cases are (evaluator, aggregate, argument list). Exhaustive: every ordered argument tuple (hence every permutation of every multiset) of length 1..4 (thorough: 1..5) over the pool {-7,-2,-1,0,1,2,3,5,12 (+0.5, 2.5 outside i64)} for min max avg med median (f64, i64, decimal, number) and gcd lcm (i64); random lists of length 1..8 over dyadic rationals k/1024 (f64, number: every partial sum exact), scale-4 decimals, and the wide i64 pool, with arguments spelled as literals, bracketed, prefixed, as sums and as nested aggregates (number: Integer and Float spellings mixed); every position of a failing argument (w(-5), 1/0); empty lists; exhaustive pairs/triples of values between 2^53 and 2^64 in Integer and (where exactly representable) Float spellings for min, max and odd-count med in eval_number and eval_i64, compared exactly. Oracle: computed from the multiset of argument values: min/max exact; mean = exact sum / n (f64/number: the correctly rounded double, decimal: exact when representable else within 1e-27, i64: truncated toward zero, Err acceptable iff a partial sum leaves i64); median = middle value or mean of the two middle values; gcd >= 0 (gcd(0,0)=0), lcm = |a*b|/gcd with lcm(0,x)=0, Err iff the result leaves i64. non-trivial = length >= 2 and not all arguments equal; distinct by (evaluator, function, list).".into()
+        "Cases are (evaluator, aggregate, argument list). Exhaustive: every ordered argument tuple (hence every permutation of every multiset) of length 1..4 (thorough: 1..5) over the pool {-7,-2,-1,0,1,2,3,5,12 (+0.5, 2.5 outside i64)} for min max avg med median (f64, i64, decimal, number) and gcd lcm (i64); random lists of length 1..8 over dyadic rationals k/1024 (f64, number: every partial sum exact), scale-4 decimals, and the wide i64 pool, with arguments spelled as literals, bracketed, prefixed, as sums and as nested aggregates (number: Integer and Float spellings mixed); random lists of 9..130 small values in scrambled order; min/max/odd-count median/one-element mean of every finite pool placeholder (incl. f64::MAX, i64::MIN, Decimal::MAX) must be that placeholder; every position of a failing argument (w(-5), 1/0); empty lists; exhaustive pairs/triples of values between 2^53 and 2^64 in Integer and (where exactly representable) Float spellings for min, max and odd-count med in eval_number and eval_i64, compared exactly. Oracle: computed from the multiset of argument values: min/max exact; mean = exact sum / n (f64/number: the correctly rounded double, decimal: exact when representable else within 1e-27, i64: truncated toward zero, Err acceptable iff a partial sum leaves i64); median = middle value or mean of the two middle values; gcd >= 0 (gcd(0,0)=0), lcm = |a*b|/gcd with lcm(0,x)=0, Err iff the result leaves i64. non-trivial = length >= 2 and not all arguments equal; distinct by (evaluator, function, list).".into()
     }
     fn subs(&self, tier: Tier) -> Vec<Sub> {
         let l = tier.pick(4, 5) as u32;
@@ -277,11 +303,16 @@ impl Prop for C11Prop {
             Sub { name: "random", kind: SubKind::Random { cases: tier.pick(400_000, 20_000_000), len: 60 } },
             Sub { name: "failing", kind: SubKind::Enum { count: 4 * 7 * 5 * 5 + 4 * 7 } },
             Sub { name: "large", kind: SubKind::Enum { count: large_cases().len() as u64 } },
+            Sub { name: "long-lists", kind: SubKind::Random { cases: tier.pick(60_000, 3_000_000), len: 300 } },
+            Sub { name: "placeholder", kind: SubKind::Enum { count: placeholder_cases().len() as u64 } },
         ]
     }
     fn gen_enum(&self, sub: &str, mut idx: u64, tier: Tier) -> Option<Case> {
         if sub == "large" {
             return large_cases().get(idx as usize).cloned();
+        }
+        if sub == "placeholder" {
+            return placeholder_cases().get(idx as usize).cloned();
         }
         if sub == "failing" {
             // (ev, func, length 1..=5, failing position) and empty lists
@@ -318,10 +349,20 @@ impl Prop for C11Prop {
         }
         None
     }
-    fn gen(&self, _sub: &str, c: &mut dyn Choices) -> Option<Case> {
+    fn gen(&self, sub: &str, c: &mut dyn Choices) -> Option<Case> {
         let ev = EVS[c.below(4) as usize];
         let fs = funcs(ev);
         let f = fs[c.below(fs.len() as u32) as usize];
+        if sub == "long-lists" {
+            // 9..130 small values in scrambled order (selection algorithms, fast paths for long lists)
+            let n = 9 + c.below(122) as usize;
+            let d = denom(ev);
+            let ks: Vec<i64> = (0..n).map(|_| (c.below(199) as i64 - 99) * d).collect();
+            let args: Vec<String> = ks.iter().map(|k| if *k < 0 { format!("-{}", -k / d) } else { format!("{}", k / d) }).collect();
+            let mut case = Case::new(ev, format!("{}({})", f, args.join(",")), Val::default_for(ev));
+            case.aux = vec![f.to_string(), ks.iter().map(|k| k.to_string()).collect::<Vec<_>>().join(" ")];
+            return Some(case);
+        }
         let n = 1 + c.below(8) as usize;
         let d = denom(ev);
         let ks: Vec<i64> = (0..n)
@@ -400,6 +441,28 @@ impl Prop for C11Prop {
                 if vals.iter().any(|v| *v != vals[0]) {
                     sc.nontrivial(case.hash(), || sample(case, &o.show()));
                 }
+                return Ok(());
+            }
+            Some("placeholder") => {
+                // min / max / odd-count median / one-element mean of copies of p is p (numerically; zero of either sign)
+                let ok = match &o {
+                    Outcome::Ok(v) => {
+                        let (a, b) = (v.as_f64(), case.ph.as_f64());
+                        match (v, &case.ph) {
+                            // eval_number's mean is a double computation: only its (rounded) numeric value is fixed
+                            (Val::NI(_), Val::NI(_)) | (Val::NF(_), Val::NI(_)) if canon == "avg" => a == b,
+                            (Val::I(x), Val::I(y)) | (Val::NI(x), Val::NI(y)) => x == y,
+                            (Val::D(x), Val::D(y)) => x == y,
+                            _ => a == b,
+                        }
+                    }
+                    _ => false,
+                };
+                if !ok {
+                    return Err(Failure::new(format!("{}/aggregate-of-placeholder/{}", ev.name(), canon), format!("{} (the placeholder itself)", case.ph.show()), o.show()));
+                }
+                sc.class(&format!("{}:{} of the placeholder", ev.name(), canon));
+                sc.nontrivial(case.hash(), || sample(case, &o.show()));
                 return Ok(());
             }
             Some("failing") => {
